@@ -284,7 +284,15 @@ func c10lookup(p *Prog, r *Report) {
 				return false
 			}
 			i, ok := idxOf(b)
-			return ok && retIdx != nil && i == retIdx
+			if !ok || retIdx == nil {
+				return false
+			}
+			if i == retIdx {
+				return true
+			}
+			le := newLinEnv()
+			d := le.toLin(i, 0).sub(le.toLin(retIdx, 0))
+			return len(d.c) == 0 && d.k.Sign() == 0
 		}
 		qHigh := func(l Lit) bool { // rounds[i+1] > round
 			a, b, strict, ok := cmpLit(l)
@@ -295,12 +303,13 @@ func c10lookup(p *Prog, r *Report) {
 			if !ok {
 				return false
 			}
-			bo, ok := i.(*ssa.BinOp)
-			if !ok || bo.Op != token.ADD || retIdx == nil || bo.X != retIdx {
+			if retIdx == nil {
 				return false
 			}
-			k, okc := intConst(bo.Y)
-			return okc && k == 1
+			// the index is the returned entry's index plus one (as linear forms: i+1, or i against i-1)
+			le := newLinEnv()
+			d := le.toLin(i, 0).sub(le.toLin(retIdx, 0)).plus(-1)
+			return len(d.c) == 0 && d.k.Sign() == 0
 		}
 		ok1, _ := p.holdsAtRet(rp, []Pred{qLow}, all(1))
 		ok2, _ := p.holdsAtRet(rp, []Pred{qHigh}, all(1))
